@@ -35,8 +35,9 @@ func c02Run(dv divider.Divider) {
 	inputs := map[uint]<-chan int{}
 	var written [][]int
 	var tags []uint
+	total := 0
 	for i := 0; i < n; i++ {
-		capacity := J + 1
+		capacity := vParam("JA", J) + 1
 		if vChoose("unbuffered", 2) == 1 {
 			capacity = 0
 		}
@@ -44,7 +45,12 @@ func c02Run(dv divider.Divider) {
 		e.ins = append(e.ins, ch)
 		inputs[e.ps[i]] = ch
 		var w []int
-		for k := 0; k < J; k++ {
+		Ji := J
+		if i == 0 {
+			Ji = vParam("JA", J) // the highest priority may hold more items than the others (JA > J: one busy input next to idle ones)
+		}
+		total += Ji
+		for k := 0; k < Ji; k++ {
 			u := vNondetUint("item")
 			tags = append(tags, u)
 			w = append(w, int(u))
@@ -77,6 +83,7 @@ func c02Run(dv divider.Divider) {
 	e.d = d
 	e.G = make([]uint, n)
 	vSink(d.output)
+	e.relaxed = true // a run through New judges C02 by the stream a reader sees; the read-then-write mechanism is a step obligation
 	e.monitors()
 	var outLog []types.Prioritized[int]
 	// handlers: release in-flight items when the discipline waits, in any order
@@ -122,7 +129,7 @@ func c02Run(dv divider.Divider) {
 	for vLogLen(d.output) > 0 {
 		outLog = append(outLog, vLogTake(d.output).(types.Prioritized[int]))
 	}
-	vAssert(len(outLog) == n*J, "C02: everything written before the close is delivered exactly once")
+	vAssert(len(outLog) == total, "C02: everything written before the close is delivered exactly once")
 	// FIFO per priority: the output restricted to p equals what was written to p's channel
 	for i := 0; i < n; i++ {
 		k := 0
@@ -179,6 +186,7 @@ func VerifC15_run_fault() {
 	e.d = d
 	e.G = make([]uint, n)
 	vSink(d.output)
+	e.relaxed = true // a run through New judges C02 by the stream a reader sees; the read-then-write mechanism is a step obligation
 	e.monitors()
 	vOnBlock(d.feedback, func() {
 		if vSumAssert("in flight", e.G...) == 0 {
@@ -277,6 +285,7 @@ func VerifC07_run_late_close() {
 	e.d = d
 	e.G = make([]uint, n)
 	vSink(d.output)
+	e.relaxed = true // a run through New judges C02 by the stream a reader sees; the read-then-write mechanism is a step obligation
 	e.monitors()
 	vOnBlock(d.feedback, func() {
 		if vSumAssert("in flight", e.G...) == 0 {
